@@ -111,16 +111,14 @@ func scenarioC01(r *Run) {
 
 	faulty := false
 	pol := &NetPolicy{ChunkBias: c.Pick(3, "chunk-bias")}
-	if (CarrierIsKCP(carrier) || carrier == "dns+udp") && c.Chance(1, 2, "benign-faults") {
+	// Benign datagram faults only where the carrier is specified to mask them
+	// (KCP). The DNS tunnel's behaviour under loss/duplication is C07's subject;
+	// C01 judges fidelity of DNS worlds on a loss-free path.
+	if CarrierIsKCP(carrier) && c.Chance(1, 2, "benign-faults") {
 		faulty = true
 		pol.Reorder = true
-		pol.LossBudget = c.Pick(4, "loss-budget")
-		pol.DupBudget = c.Pick(4, "dup-budget")
-	}
-	if CarrierIsDNS(carrier) && faulty {
-		// known: the DNS tunnel does not mask loss (C07 finding); keep C01's DNS
-		// worlds loss-free so that C01 judges fidelity only
-		pol.LossBudget = 0
+		pol.LossBudget = c.Pick(6, "loss-budget")
+		pol.DupBudget = c.Pick(6, "dup-budget")
 	}
 	r.Info["carrier"] = carrier
 	r.Info["listener"] = lkind
